@@ -112,6 +112,18 @@ claim("C11", "other",
       "decision-table extraction from MIR + ordering enumeration + caller inventories",
       "DESIGN.md §3 C11")
 
+claim("C10", "other",
+      "The bound is a real-arithmetic lemma; the check decides that the code has its premises and shape: sample admission "
+      "(append iff previous report and interval <= max_interval), exact equality of the extracted mean/phi terms with "
+      "(sum + w*prior)/(len + w) and elapsed/mean on a rational grid, phi None for len = 0, positive constant prior weight, "
+      "parameter flow config -> SamplingWindow::new -> fields, liveness decision alive <=> phi = Some(p) and p <= threshold "
+      "with the set effects of each branch, bounded-window bookkeeping tables (append/clear/len), only fresh heartbeats "
+      "recorded.",
+      "The time bound as a measured quantity, floating-point drift of the incremental sum, and sampling_window_size = 0 are "
+      "not decided. Instant/Duration arithmetic and HashMap/HashSet semantics assumed.",
+      "decision-table extraction from MIR + evaluation of extracted arithmetic terms on a rational grid",
+      "DESIGN.md §3 C10")
+
 ALL = ["C%02d" % i for i in range(1, 21)]
 PENDING_REASON = "check under construction in this session (rules designed in DESIGN.md §3, not yet armed)"
 
